@@ -375,6 +375,27 @@ def _reset(ctx, N):
                 diffs.append(k)
         ctx.ob("R-RESET", f"{name}: no fitted attribute depends on the previous fit's data", not leaks, f"attributes still depending on the first data set: {leaks}" if leaks else "none", site, name)
         ctx.ob("R-RESET", f"{name}: refitted values == fresh values (normal forms)", not diffs, f"attributes whose value differs from a fresh fit: {diffs}" if diffs else f"{len(live1 & live2)} attributes compared", site, name)
+        if cls.rsplit(".", 1)[1] in ("KernelNormalizer", "SparseKernelCenterer"):  # (the classes that define fit_transform themselves)
+            # the same history ending in fit_transform instead of fit: the one-call form must not answer from
+            # anything an earlier fit (of another configuration) left on the object
+            try:
+                I3 = ctx.interp(order=order, assume=protocols.assume_default, **cfg)
+                s3 = State()
+                o3 = ctx.construct(I3, s3, cls, **ctor)
+                ctx.call_method(I3, s3, o3, "fit_transform", *A[0], **A[1])
+                for k_, v_ in change.items():
+                    s3.heap[o3.obj.id][k_] = pyval(v_)
+                r3_ = ctx.call_method(I3, s3, o3, "fit_transform", *B[0], **B[1])
+                I4 = ctx.interp(order=order, assume=protocols.assume_default, **cfg)
+                s4 = State()
+                o4 = ctx.construct(I4, s4, cls, **dict(ctor, **change))
+                r4_ = ctx.call_method(I4, s4, o4, "fit_transform", *B[0], **B[1])
+            except Exception as e_:
+                r3_ = r4_ = None
+                ctx.ob("R-RESET", f"{name}: fit_transform after an earlier fit_transform answers like a fresh estimator", False, f"fit_transform could not be evaluated: {e_!r}"[:200], ctx.site(P.method(c, "fit_transform")), name)
+            if r3_ is not None and r4_ is not None and not (_has_unstable(r3_.term) or _has_unstable(r4_.term)):
+                same_ = N.nf(r3_.term) == N.nf(r4_.term)
+                ctx.ob("R-RESET", f"{name}: fit_transform after an earlier fit_transform answers like a fresh estimator", same_, "equal normal forms" if same_ else f"refitted: {repr(r3_.term)[:160]} ; fresh: {repr(r4_.term)[:160]}", ctx.site(P.method(c, "fit_transform")), name)
         for meth, mk in AFTER.get(cls.rsplit(".", 1)[1], ()):
             a1_, a2_ = mk(), mk()
             m1_ = len(I1.events)
